@@ -441,34 +441,8 @@ def run_case(case):
 # ------------------------------------------------------------------------------------------------------------------
 # recognisers of known defect classes (labels only)
 
-def _strings(x, out):
-    if isinstance(x, str):
-        out.add(x)
-    elif isinstance(x, dict):
-        for k, v in x.items():
-            out.add(k)
-            _strings(v, out)
-    elif isinstance(x, (list, tuple)):
-        for v in x:
-            _strings(v, out)
-    return out
-
-
-def _cut_at_semicolon(case, failure):
-    """a name / file name of the case that contains ';' shows up cut at its first ';' in what was observed"""
-    cut = set()
-    for f in case['fields']:
-        for s in [f[1]] + ([f[2]] if f[0] == 'file' else []):
-            if ';' in s:
-                cut.add(s.split(';', 1)[0])
-                cut.add(s.split(';', 1)[0].strip())
-    if not cut:
-        return False
-    if failure['clause'] == 'R0.status':
-        return True
-    obs = _strings(failure.get('observed'), set())
-    exp = _strings(failure.get('expected'), set())
-    return bool((cut & obs) - exp)
+def _semicolon_in_quoted(case):
+    return any(';' in f[1] or (f[0] == 'file' and ';' in f[2]) for f in case['fields'])
 
 
 def _text_and_file_share_a_name(case):
@@ -480,7 +454,8 @@ def _text_and_file_share_a_name(case):
 FINDINGS = {
     # D6: FieldStorage._patt splits header parameters at ';' inside the quoted string: name="a;b" -> 'a', filename="x;y=z.txt" -> 'x'
     'D6-quoted-param-split-at-semicolon':
-        lambda case, failure: failure['clause'] in ('R0.status', 'R1.forms', 'R2.files', 'R3.post') and _cut_at_semicolon(case, failure),
+        lambda case, failure: failure['clause'] in ('R0.status', 'R1.forms', 'R2.files', 'R3.post') and _semicolon_in_quoted(case)
+        and not _text_and_file_share_a_name(case),     # inputs with both features are labelled D7 only
     # D7: BodyMixin.POST decides "repeated" on the combined dict: a name used by a text field and by an upload mixes forms/files
     'D7-text-and-file-same-name':
         lambda case, failure: failure['clause'] in ('R0.status', 'R1.forms', 'R2.files', 'R3.post') and _text_and_file_share_a_name(case),
